@@ -5,6 +5,7 @@ exit 0: the named obligation held (or inputs violate the assumptions) on every t
 exit 1: the obligation fails natively -> prints the failing inputs as JSON
 """
 import importlib
+import os
 import json
 import math
 import random
@@ -34,6 +35,8 @@ def run_once(mod, hname, target, inputs, seed):
             return "fails", "obligation false: no-unexpected-exception (%s: %s)\n%s" % (
                 type(e).__name__, e, traceback.format_exc()[-500:])
         if target == "*":
+            if os.environ.get("PYVC_CROSSCHECK_RUN"):
+                return "not-evaluable", "%s: %s" % (type(e).__name__, e)
             for name, ok in spec.S.results:
                 if not ok:
                     return "fails", "obligation false: " + name
@@ -48,6 +51,8 @@ def run_once(mod, hname, target, inputs, seed):
         # obligation could be evaluated: the contract (which expects a result) is violated
         return "fails", "native run raised before the obligation: %s: %s\n%s" % (
             type(e).__name__, e, traceback.format_exc()[-600:])
+    if os.environ.get("PYVC_CROSSCHECK_RUN") and getattr(spec.S, "stubbed", False):
+        return "not-evaluable", "harness replaces callees by stubs (symbolic only)"
     for name, ok in spec.S.results:
         if (name == target or target in ("*", "**")) and not ok:
             return "fails", "obligation false: " + name
